@@ -14,7 +14,7 @@ def main():
     ctx = core.Ctx('baseline', 'quick', 0)
     seen = {}
     fns = sorted(set(f for fs in run.PROPERTY_FUNCTIONS.values() for f in fs))
-    for r in run.run_functions(ctx, fns):
+    for r in run.run_functions(ctx, fns, timeout_ms=90000):
         if 'obligations' not in r or 'extraction_failure' in r or 'crash' in r:
             print('SKIP', r['function'], r.get('extraction_failure') or r.get('crash'))
             continue
